@@ -82,8 +82,8 @@ func (t *tailBuffer) Write(p []byte) (int, error) {
 	t.mu.Lock()
 	defer t.mu.Unlock()
 	t.buf = append(t.buf, p...)
-	if len(t.buf) > 8192 {
-		t.buf = t.buf[len(t.buf)-8192:]
+	if len(t.buf) > 65536 {
+		t.buf = t.buf[len(t.buf)-65536:]
 	}
 	return len(p), nil
 }
@@ -93,7 +93,9 @@ func (t *tailBuffer) head(n int) string {
 	defer t.mu.Unlock()
 	s := string(t.buf)
 	// the first lines of a Go crash report carry the reason
-	if i := strings.Index(s, "fatal error:"); i >= 0 {
+	if i := strings.Index(s, "WARNING: DATA RACE"); i >= 0 {
+		s = s[i:]
+	} else if i := strings.Index(s, "fatal error:"); i >= 0 {
 		s = s[i:]
 	} else if i := strings.Index(s, "panic:"); i >= 0 {
 		s = s[i:]
